@@ -75,6 +75,15 @@ pub struct ExecCfg {
 
 static HOOK: std::sync::Once = std::sync::Once::new();
 
+/// Panics on threads that are not simulation threads (the rayon pool used by
+/// `exclusively_owned_areas`): rayon re-raises them on the calling simulated task
+/// without going through the hook again, so the message is kept here as a fallback.
+static FOREIGN_PANIC: Mutex<Option<String>> = Mutex::new(None);
+
+thread_local! {
+    static IS_SIM_THREAD: Cell<bool> = const { Cell::new(false) };
+}
+
 /// Install a quiet panic hook *after* shuttle installed its own (shuttle does so
 /// once, on the first run), so panics inside simulated runs are captured as data
 /// (message + location) instead of being printed.
@@ -97,13 +106,17 @@ pub fn install_quiet_hook() {
                 .location()
                 .map(|l| format!("{}:{}", l.file(), l.line()))
                 .unwrap_or_default();
-            LAST_PANIC.with(|p| {
-                let mut p = p.borrow_mut();
-                // keep the FIRST panic of a run (later ones are consequences)
-                if p.is_none() {
-                    *p = Some(format!("{msg} @ {loc}"));
-                }
-            });
+            if IS_SIM_THREAD.with(|s| s.get()) {
+                LAST_PANIC.with(|p| {
+                    let mut p = p.borrow_mut();
+                    // keep the FIRST panic of a run (later ones are consequences)
+                    if p.is_none() {
+                        *p = Some(format!("{msg} @ {loc}"));
+                    }
+                });
+            } else if let Ok(mut g) = FOREIGN_PANIC.lock() {
+                *g = Some(format!("{msg} @ {loc}"));
+            }
             if std::env::var("SIM_VERBOSE_PANIC").is_ok() {
                 eprintln!("panic: {msg} @ {loc}");
             }
@@ -139,6 +152,7 @@ where
     let th = std::thread::Builder::new()
         .stack_size(8 << 20)
         .spawn(move || {
+            IS_SIM_THREAD.with(|s| s.set(true));
             HASH_SEED.with(|s| s.set(cfg.hash_seed));
             HASH_CTR.with(|c| c.set(0));
             LAST_PANIC.with(|p| *p.borrow_mut() = None);
@@ -160,7 +174,10 @@ where
                     } else {
                         "<non-string panic>".to_string()
                     };
-                    let first = LAST_PANIC.with(|p| p.borrow_mut().take());
+                    let mut first = LAST_PANIC.with(|p| p.borrow_mut().take());
+                    if first.is_none() || pmsg.starts_with("Task panicked, and early return") && first.is_none() {
+                        first = FOREIGN_PANIC.lock().ok().and_then(|mut g| g.take());
+                    }
                     if pmsg.starts_with("deadlock!") {
                         Some(Abort::Deadlock(pmsg))
                     } else if pmsg.starts_with("exceeded max_steps") {
